@@ -255,4 +255,14 @@ def run(repo, tier):
         ('photutils.segmentation.deblend._SingleSourceDeblender.deblend_source', 'test', 'len(_get_labels(markers)) == 1',
          'the "nothing to deblend" test counts the markers that SURVIVED the watershed/contrast pruning'),
     ])
+    from .common import guard_only
+    ds = repo.method('photutils.segmentation.deblend._SingleSourceDeblender', 'deblend_source')
+    rl = [a_ for a_ in ast.walk(ds.node) if isinstance(a_, ast.Assign) and unparse(a_.targets[0], 0) == 'relabel_map'
+          and '_create_relabel_map' in unparse(a_.value, 0)]
+    if len(rl) != 1:
+        raise AnalysisError('vanished anchor: child renumbering in _SingleSourceDeblender.deblend_source')
+    guard_only(res, 'GUARD', ds, rl[0], set(), 'the renumbering of the children to 1..k',
+               'gaps also come from the npixels filter; with gaps the merge advances max_label by len(new_labels) and the next parent reuses a label')
+    apply_specs(repo, res, [('photutils.segmentation.deblend.deblend_sources', 'stmt', 'deblend_label_map = {}',
+                             'the parent->children map starts empty (records of an earlier deblending of the input do not leak in)')])
     return res
